@@ -751,6 +751,9 @@ type c12Live struct {
 	Wild   vOpt       `json:"wildcard_prefix"`
 	Nets   [][]string `json:"address_networks"` // per step: the /64 networks the interface has addresses in
 	Theirs vRA        `json:"theirs"`
+	// Later, if present: the RA received at step i is Later[i-1] instead of Theirs (steps beyond it: the last
+	// one) - several routers, or one that changes what it sends, seen by one long-lived Advertiser
+	Later []vRA `json:"theirs_later,omitempty"`
 }
 
 func c12LiveProp(k *verifkit.Kit) func(c c12Live) error {
@@ -761,7 +764,7 @@ func c12LiveProp(k *verifkit.Kit) func(c c12Live) error {
 				changes++
 			}
 		}
-		k.Record(c, changes >= 1, fmt.Sprintf("live:address-changes=%d", min(changes, 3)))
+		k.Record(c, changes >= 1 || len(c.Later) > 0, fmt.Sprintf("live:address-changes=%d", min(changes, 3)))
 		logs := &lockedBuf{}
 		mem := metricslite.NewMemory()
 		mm := NewMetrics(mem, "verif", time.Time{}, system.TestState{Forwarding: true}, nil)
@@ -782,13 +785,19 @@ func c12LiveProp(k *verifkit.Kit) func(c c12Live) error {
 		a := NewAdvertiser(cctx, cfg, nil, nil, func() bool { return false })
 		hooks := 0
 		a.OnInconsistentRA = func(o, t *ndp.RouterAdvertisement) { hooks++ }
-		b, err := ndp.MarshalMessage(c.Theirs.ndp())
-		if err != nil {
-			return fmt.Errorf("verif: generated RA does not encode: %v", err)
+		wire := func(r vRA) (ndp.Message, error) {
+			b, err := ndp.MarshalMessage(r.ndp())
+			if err != nil {
+				return nil, fmt.Errorf("verif: generated RA does not encode: %v", err)
+			}
+			m, err := ndp.ParseMessage(b)
+			if err != nil {
+				return nil, fmt.Errorf("verif: generated RA does not decode: %v", err)
+			}
+			return m, nil
 		}
-		m, err := ndp.ParseMessage(b)
-		if err != nil {
-			return fmt.Errorf("verif: generated RA does not decode: %v", err)
+		if len(c.Later) > 0 {
+			k.Class("live:a-different-RA-per-reception")
 		}
 		prev := map[string]float64{}
 		prevLogs, prevHooks := 0, 0
@@ -809,7 +818,15 @@ func c12LiveProp(k *verifkit.Kit) func(c c12Live) error {
 				}
 			}
 			ours.Opts = append(ours.Opts, c.Ours.Opts...)
-			want, unspec := c12Expected(ours, c.Theirs)
+			theirs := c.Theirs
+			if step > 0 && len(c.Later) > 0 {
+				theirs = c.Later[min(step, len(c.Later))-1]
+			}
+			m, err := wire(theirs)
+			if err != nil {
+				return err
+			}
+			want, unspec := c12Expected(ours, theirs)
 			drop := map[string]bool{}
 			for _, u := range unspec {
 				drop[u] = true
@@ -887,6 +904,35 @@ func c12GenLive(t *rapid.T) c12Live {
 		}
 	}
 	c.Theirs.Opts = topts
+	if rapid.Bool().Draw(t, "later") {
+		// later receptions bring other RAs: the first one with single-valued options (MTU, captive portal) dropped,
+		// changed or added, and everything else re-drawn now and then
+		for i, n := 0, rapid.IntRange(1, 3).Draw(t, "nlater"); i < n; i++ {
+			var r vRA
+			bb, _ := json.Marshal(c.Theirs)
+			_ = json.Unmarshal(bb, &r)
+			if rapid.IntRange(0, 3).Draw(t, "redraw") == 0 {
+				r = c12GenRA(t, true, c12Prefixes)
+			}
+			var opts []vOpt
+			for _, o := range r.Opts {
+				if (o.Kind == "mtu" || o.Kind == "cp") && rapid.Bool().Draw(t, "dropsingle") {
+					continue
+				}
+				if (o.Kind == "mtu" || o.Kind == "cp") && rapid.Bool().Draw(t, "changesingle") {
+					o = c12GenOpt(t, o.Kind, c12Prefixes)
+				}
+				opts = append(opts, o)
+			}
+			for _, kind := range []string{"mtu", "cp"} {
+				if len(c12Pick(vRA{Opts: opts}, kind)) == 0 && rapid.IntRange(0, 2).Draw(t, "addsingle") == 0 {
+					opts = append(opts, c12GenOpt(t, kind, c12Prefixes))
+				}
+			}
+			r.Opts = opts
+			c.Later = append(c.Later, r)
+		}
+	}
 	return c
 }
 
